@@ -166,6 +166,8 @@ class Lib:
             return '%s_some(%s)' % (ti.c, em.e(args[0]))
         if ti.kind == 'nullopt':
             return '0'
+        if ti.kind in ('pair', 'vec') and len(args) == 0:
+            return '((%s){0})' % ti.c
         if ti.kind == 'pair':
             if len(args) == 2:
                 return '%s_make(%s, %s)' % (ti.c, em.e(args[0]), em.e(args[1]))
@@ -190,6 +192,12 @@ class Lib:
         if ti.kind == 'str':
             if len(args) == 1 and em.T(qt(args[0])).kind == 'str':
                 return em.e(args[0])
+            if len(args) == 0:
+                return 'sv_empty_view()'
+            real = [a for a in args if a.get('kind') != 'CXXDefaultArgExpr']
+            if len(real) == 2 and em.T(qt(real[0])).kind == 'it' and em.T(qt(real[1])).kind == 'it':
+                # std::string(first, last): requires [first,last) to be a valid range
+                return 'str_from_range(%s, %s)' % (em.e(real[0]), em.e(real[1]))
         if ti.kind == 'opq':
             if len(args) == 1 and em.T(qt(args[0])).kind == 'opq':
                 return em.e(args[0])
@@ -273,6 +281,8 @@ class Lib:
                 return '%s_value_or(%s, %s)' % (inner.c, o, em.e(args[0]))
             if m == 'reset':
                 return '((%s)->has = 0)' % o
+            if m == 'emplace' and len(args) == 1:
+                return '%s_emplace(%s, %s)' % (inner.c, o, em.e(args[0]))
         if inner.kind == 'dur' and m == 'count':
             return '(*%s)' % o
         if inner.kind == 'vec':
@@ -328,7 +338,7 @@ class Lib:
                 return '(%s = %s_some(%s))' % (em.e(args[0]), t0.c, em.e(args[1]))
         if t0.kind in ('it', 'vit'):
             return self.iter_op(em, n, name, args, t0)
-        if t0.kind in ('sv', 'pair', 'ec', 'dur') and name == 'operator=':
+        if t0.kind in ('sv', 'pair', 'ec', 'dur', 'str') and name == 'operator=':
             return '(%s = %s)' % (em.e(args[0]), em.e(args[1]))
         if t0.kind == 'ec' or (len(args) > 1 and em.T(qt(args[1])).kind == 'ec'):
             if name in ('operator==', 'operator!='):
